@@ -89,6 +89,7 @@ pub fn replay_one(ctx: &mut Ctx, path: &std::path::Path) {
         "async" => go!(crate::engine_async::AsyncCase, |c: &crate::engine_async::AsyncCase| crate::engine_async::run(c, prop)),
         "thr" => go!(ThrCase, |c: &ThrCase| engine_thr::run_repeated(c, prop, 2000)),
         "zst" => go!(crate::engine_zst::ZCase, |c: &crate::engine_zst::ZCase| crate::engine_zst::run(c, prop)),
+        "shape" => go!(crate::engine_zst::ShapeCase, |c: &crate::engine_zst::ShapeCase| crate::engine_zst::run_shape(c, prop)),
         "zvec" => go!(crate::engine_zvec::ZvCase, |c: &crate::engine_zvec::ZvCase| crate::engine_zvec::run(c, prop)),
         e => ctx.inconclusive.push(format!("unknown engine {e:?} in {}", path.display())),
     }
@@ -450,6 +451,12 @@ fn obs_check(ctx: &mut Ctx) {
         let run = move |c: &crate::engine_zst::ZCase| crate::engine_zst::run(c, prop);
         let n = ctx.pick(60_000, 1_000_000);
         ctx.random("zero-sized-values", "zst", &|| crate::engine_zst::case(), &run, n);
+    }
+    if matches!(prop, Prop::C01 | Prop::C02) {
+        // conditional setters on byte-string values and on a value type with coarse equality
+        let run = move |c: &crate::engine_zst::ShapeCase| crate::engine_zst::run_shape(c, prop);
+        let n = ctx.pick(60_000, 1_000_000);
+        ctx.random("value-shapes", "shape", &|| crate::engine_zst::shape_case(), &run, n);
     }
     if matches!(prop, Prop::C01 | Prop::C02 | Prop::C03) {
         // the async-lock flavour is an Observable / SharedObservable too: the value, wake-up and
